@@ -243,6 +243,7 @@ func (o *ovsdbClient) resetRPCClient() {
 func (o *ovsdbClient) connect(ctx context.Context, reconnect bool) error {
 	o.rpcMutex.Lock()
 	defer o.rpcMutex.Unlock()
+	verifPause(o, "connect:locked")
 	if o.rpcClient != nil {
 		return ErrAlreadyConnected
 	}
@@ -1320,6 +1321,7 @@ func (o *ovsdbClient) handleInactivityProbes() {
 
 func (o *ovsdbClient) handleDisconnectNotification() {
 	<-o.rpcClient.DisconnectNotify()
+	verifPause(o, "disconnect:notified")
 	// close the stopCh, which will stop the cache event processor
 	close(o.stopCh)
 	if o.trafficSeen != nil {
